@@ -47,51 +47,55 @@ def add(pid, name, case, expect_prefix, note):
 
 # --- C16 / C12: rainfall_partition wrote into the profile
 sp = spec(start="1990/05/01", end="1990/10/30", soil={"type": "SandyLoam", "kwargs": {"z_cn": 0.25}, "layers": None})
-add("C16", "dzsum-write-zcn", {"spec": sp, "mode": "till", "k": 1}, "C16:crash:ValueError:assignment destination is read-only", "984201d")
-add("C12", "dzsum-write-zcn", std(copy.deepcopy(sp)), "C12:", "984201d")
+add("C16", "dzsum-write-zcn", {"spec": sp, "mode": "till", "k": 1}, "C16:crash:ValueError:assignment destination is read-only", "18266e4")
+add("C12", "dzsum-write-zcn", std(copy.deepcopy(sp)), "C12:", "18266e4")
 sp2 = spec(start="1990/05/01", end="1990/12/30", crop={"name": "AlfalfaGDD", "planting_date": "05/01", "harvest_date": None, "overrides": {}})
-add("C12", "dzsum-write-deepened-profile", std(sp2), "C12:", "984201d")
+add("C12", "dzsum-write-deepened-profile", std(sp2), "C12:", "18266e4")
 # --- C16: ETadj=0
 sp = spec(crop={"name": "Maize", "planting_date": "05/01", "harvest_date": None, "overrides": {"ETadj": 0}})
-add("C16", "etadj0", {"spec": sp, "mode": "till", "k": 1}, "C16:crash:UnboundLocalError", "f575a7c")
+add("C16", "etadj0", {"spec": sp, "mode": "till", "k": 1}, "C16:crash:UnboundLocalError", "267b1a5")
 # --- C16: bunds with default height
 sp = spec(field={"bunds": True})
-add("C16", "bunds-default-height", {"spec": sp, "mode": "till", "k": 1}, "C16:crash:UnboundLocalError", "0f35879")
+add("C16", "bunds-default-height", {"spec": sp, "mode": "till", "k": 1}, "C16:crash:UnboundLocalError", "d0a0cc7")
 # --- C16: end date on 29 February
 sp = spec(start="1991/05/01", end="1992/02/29")
-add("C16", "end-feb29", {"spec": sp, "mode": "till", "k": 1}, "C16:crash:DateParseError", "387c15b")
+add("C16", "end-feb29", {"spec": sp, "mode": "till", "k": 1}, "C16:crash:DateParseError", "c2532b4")
 # --- C16: deepening loop hang
 sp = spec(soil={"type": "SandyLoam", "kwargs": {"dz": [0.25] * 4}, "layers": None},
           crop={"name": "Tomato", "planting_date": "05/01", "harvest_date": None, "overrides": {}})
-add("C16", "deepening-hang", {"spec": sp, "mode": "till", "k": 1}, "C16:hang@", "830b6e2")
+add("C16", "deepening-hang", {"spec": sp, "mode": "till", "k": 1}, "C16:hang@", "4c6f8d6")
 # --- C05: restrictive layer
 sp = spec(start="1990/05/01", end="1990/11/30", crop={"name": "Sorghum", "planting_date": "05/01", "harvest_date": None, "overrides": {}},
           soil={"type": "custom", "kwargs": {"dz": [0.1] * 12}, "layers": [["hyd", 0.4, 0.10, 0.22, 0.41, 1200, 100], ["hyd", 3.0, 0.15, 0.31, 0.46, 500, 30]]},
           iwc={"wc_type": "Prop", "method": "Layer", "depth_layer": [1, 2], "value": ["FC", "FC"]})
-add("C05", "restrictive-layer-roots", std(sp), "C05:z_root", "665aaf0")
+add("C05", "restrictive-layer-roots", std(sp), "C05:z_root", "83feed3")
 # --- C04: closed canopy
 sp = spec(start="1990/05/01", end="1990/12/30", crop={"name": "Cotton", "planting_date": "05/01", "harvest_date": None, "overrides": {}},
           irr={"method": 1, "kwargs": {"SMT": [80, 80, 80, 80]}, "schedule": None})
-add("C04", "espot-closed-canopy", std(sp), "C04:", "570eec9")
+add("C04", "espot-closed-canopy", std(sp), "C04:", "e9fc0a3")
 # --- C07: in-season day after latest-harvest-date harvest, off-season simulated
 sp = spec(start="1990/03/01", end="1992/03/01", off_season=True,
           crop={"name": "Maize", "planting_date": "05/01", "harvest_date": "07/15", "overrides": {}})
-add("C07", "day-after-latest-harvest", std(sp), "C07:dap", "adcefed")
+add("C07", "day-after-latest-harvest", std(sp), "C07:dap", "9f2c06f")
 # --- C08 / C01: thini alias with net irrigation
 sp = spec(start="1990/05/01", end="1992/12/30", irr={"method": 4, "kwargs": {"NetIrrSMT": 80}, "schedule": None},
           iwc={"wc_type": "Pct", "method": "Layer", "depth_layer": [1], "value": [30]})
 sp["weather"] = wx(3, sp["start"], sp["end"], "semiarid")
-add("C08", "thini-alias-net-irrigation", {"spec": sp}, "C08:daily-rows-differ", "6260be0")
-add("C01", "thini-alias-net-irrigation", std(copy.deepcopy(sp)), "C01:reset-not-configured-initial", "6260be0")
+add("C08", "thini-alias-net-irrigation", {"spec": sp}, "C08:daily-rows-differ", "d633297")
+add("C01", "thini-alias-net-irrigation", std(copy.deepcopy(sp)), "C01:reset-not-configured-initial", "d633297")
 # --- C08: stale e_pot/t_pot with threshold irrigation
 sp = spec(start="1990/05/01", end="1992/12/30", irr={"method": 1, "kwargs": {"SMT": [80, 80, 80, 80]}, "schedule": None},
           iwc={"wc_type": "Pct", "method": "Layer", "depth_layer": [1], "value": [50]})
 sp["weather"] = wx(4, sp["start"], sp["end"], "semiarid")
-add("C08", "stale-demand-threshold-irrigation", {"spec": sp}, "C08:daily-rows-differ", "0c225ad")
+add("C08", "stale-demand-threshold-irrigation", {"spec": sp}, "C08:daily-rows-differ", "0b6e544")
 # --- C15: weather columns in another order / extra columns
 sp = spec(start="1990/05/01", end="1990/10/30")
-add("C15", "column-order", {"spec": sp, "transforms": [{"op": "permute", "order": [2, 0, 1, 3, 4]}]}, "C15:", "1a3fd8f")
-add("C15", "extra-column-front", {"spec": copy.deepcopy(sp), "transforms": [{"op": "extra_cols", "names": ["Wind"], "pos": "front", "seed": 3}]}, "C15:", "1a3fd8f")
+add("C15", "column-order", {"spec": sp, "transforms": [{"op": "permute", "order": [2, 0, 1, 3, 4]}]}, "C15:", "9b2fd26")
+add("C15", "extra-column-front", {"spec": copy.deepcopy(sp), "transforms": [{"op": "extra_cols", "names": ["Wind"], "pos": "front", "seed": 3}]}, "C15:", "9b2fd26")
+# --- C11: dated schedule consumed by the first run
+sp = spec(start="1990/05/01", end="1990/10/30", irr={"method": 3, "kwargs": {}, "schedule": [["1990/06/01", 20], ["1990/07/01", 30]]})
+add("C11", "schedule-consumed", {"spec": sp, "enumerate": False, "history": [{"op": "run", "model": "new", "how": "till"}, {"op": "run", "model": "new", "how": "till"}]}, "C11:raises-on-reuse", "8ff9630")
+add("C11", "schedule-consumed-after-abandon", {"spec": copy.deepcopy(sp), "enumerate": False, "history": [{"op": "abandon", "model": "new", "steps": 1}, {"op": "run", "model": "same", "how": "till"}]}, "C11:raises-on-reuse", "8ff9630")
 
 
 def main():
